@@ -87,7 +87,8 @@ def run(ctx):
     check_s2v(bytes(16), [], ctx.acc)
 
     tasks = build_tasks(q)
-    shards = pack(tasks, max(32, ctx.workers * 6))
+    # thorough: many more (and some much heavier) tasks -> more, smaller shards so that the pool stays balanced
+    shards = pack(tasks, max(32, ctx.workers * 6) if q else max(256, ctx.workers * 24))
     ctx.pmap(worker, shards)
 
     a = ctx.acc
@@ -131,6 +132,53 @@ def run(ctx):
                 "SP800-108: too few evaluations")
     ctx.require(n.get("s2v/ok", 0) + n.get("s2v/mismatch", 0) > 1000, "S2V: too few vectors")
     ctx.require(n.get("s2v/empty", 0) >= 1, "S2V: the empty vector was not exercised")
+    if not q:
+        # guards for the dimensions that only the thorough tier enumerates
+        from . import _c12_pbkdf as PA, _c12_misc as PB
+        nlab = len(PA.pbkdf2_labels())
+        ctx.require(n.get("pbkdf2/blocks>=256", 0) >= 4 * nlab and n.get("pbkdf2/blocks>=65536", 0) >= len([l for l in PA.PB_64K if l in PA.pbkdf2_labels()]) >= 4,
+                    "PBKDF2: block counters >= 256 / >= 65536 not exercised")
+        rows = sum(len(PA._lens_pw_range(l)) for l in PA.pbkdf2_labels()) * len(PA.PB_LENS_COUNTS)
+        ctx.require(n.get("pbkdf2/lens-rows", 0) == rows, "PBKDF2: password x salt length product incomplete "
+                    "(%d of %d rows)" % (n.get("pbkdf2/lens-rows", 0), rows))
+        counts_seen = {c[3] for c in cls if c[0] == "pbkdf2" and len(c) == 9}
+        want = {1, 2, 3, 1000} | set(PA.PB_EXTRA_COUNTS) | set(PA.PB_EXTRA_COUNTS_FAST)
+        ctx.require(want <= counts_seen, "PBKDF2: iteration counts %s not exercised" % sorted(want - counts_seen))
+        ctx.require(n.get("pbkdf1/lens-sweeps", 0) == 3 * len(PA.PBKDF1_HASHES), "PBKDF1: length sweeps missing")
+        tot = sum(255 * PA.hlen(l) + 3 for l in PA.hkdf_labels())
+        ctx.require(n.get("hkdf/all-lengths", 0) == tot, "HKDF: all-lengths sweep incomplete (%d of %d)"
+                    % (n.get("hkdf/all-lengths", 0), tot))
+        ctx.require(refusals("hkdf/refused", "C12/hkdf/too-long-accepted") >= 10 * len(PA.hkdf_labels()),
+                    "HKDF: too few refusal probes for the thorough tier")
+        ctx.require({c[2] for c in cls if c[0] == "hkdf"} >= set(PA.HKDF_NK[False]) | {16, 255, 256},
+                    "HKDF: num_keys values missing")
+        ctx.require(n.get("hkdf/length-lines", 0) > 0 and n.get("sp108/length-lines", 0) > 0,
+                    "HKDF / SP800-108: length sweeps missing")
+        ctx.require(n.get("sp108/blocks>=256", 0) >= 40, "SP800-108: counter values >= 256 not exercised")
+        ctx.require({c[2] for c in cls if c[0] == "sp108" and c[1] != "L-field"} >= set(PA.SP_NK[False]) | {None, 1, 255, 65537},
+                    "SP800-108: num_keys values missing")
+        cells = len(PB.scrypt_cells_t()) * len(PB.SCRYPT_P_T)
+        ctx.require(n.get("scrypt/grid2-cells", 0) == cells, "scrypt: (N, r, p) grid incomplete")
+        ctx.require(n.get("scrypt/lens2-rows", 0) == PB.SCRYPT_LENS_T + 1, "scrypt: length product incomplete")
+        ctx.require(n.get("scrypt/big2", 0) == len(PB._SCRYPT_BIG_T), "scrypt: large-parameter cases missing")
+        ctx.require(refusals("scrypt/refused-N", "C12/scrypt/N-not-power-of-two-accepted") > PB.SCRYPT_REFUSE_TOP - 100,
+                    "scrypt: exhaustive N refusal sweep incomplete")
+        ctx.require({c[1] for c in cls if c[0] == "bcrypt" and isinstance(c[1], int)} >= {4} | set(PB.BCRYPT_COSTS_T),
+                    "bcrypt: costs missing")
+        ctx.require(n.get("bcrypt/ok", 0) >= 1000, "bcrypt: fewer than 1000 hashes compared")
+        ctx.require(n.get("bcrypt_check/mut2-tasks", 0) == 31 + 22 + 1 and n.get("bcrypt_check/mut-reject", 0) >= 3500,
+                    "bcrypt_check: exhaustive substitutions incomplete")
+        for mode in ("T4", "T5", "sweep"):
+            ctx.require(n.get("s2v/" + mode, 0) > 12 * 2000, "S2V: %s vectors missing" % mode)
+        for depth, kl, alpha in PB.S2V_HIST_T:
+            want_n = len(PB.S2V_ALPHA[alpha]) ** PB.s2v_hist_plen(depth) + 1
+            ctx.require(len({c for c in cls if c[0] == "s2v-history" and c[1:4] == (depth, kl, alpha)}) == want_n,
+                        "S2V: histories of depth %d (AES-%d, %s alphabet) incomplete" % (depth, 8 * kl, alpha))
+        ctx.require(n.get("s2v/histories", 0) == sum(PB.s2v_hist_count(d, len(PB.S2V_ALPHA[al])) for d, _, al in PB.S2V_HIST_T),
+                    "S2V: number of histories differs from the closed form")
+        ctx.require(n.get("pbkdf2/all-counts", 0) == sum(PA.PB_ALLCOUNTS[PA.path_of(l)] for l in PA.pbkdf2_labels())
+                    and n.get("pbkdf1/all-counts", 0) == PA.PBKDF1_ALLCOUNTS * len(PA.PBKDF1_HASHES),
+                    "PBKDF2 / PBKDF1: sweep over every iteration count incomplete")
     ctx.require(len(a.distinct.get("outputs", ())) > 200, "fewer than 200 distinct output digests observed")
     ctx.require(len(cls) > (300 if q else 1000), "fewer behaviour classes than the grid must produce")
 
@@ -145,10 +193,19 @@ def run(ctx):
     })
     ctx.assume("data values: only the value alphabet (zero, 0xFF, ascending, SHAKE256(seed)) for secrets, "
                "salts, labels; all *lengths/shapes* of the stated grids are enumerated")
-    ctx.assume("PBKDF2/PBKDF1 iteration counts only {1,2,3,1000}; scrypt N <= 2^14, r <= 8, p <= 3 for computed "
-               "outputs (N = 2^31 and the largest legal p*r are not computed: memory)")
-    ctx.assume("bcrypt costs computed: 4..6 (quick) and 4..7 (thorough) only (pure-Python reference); costs above are covered by the "
-               "range check only")
+    if q:
+        ctx.assume("PBKDF2/PBKDF1 iteration counts only {1,2,3,1000}; scrypt N <= 2^14, r <= 8, p <= 3 for computed "
+                   "outputs (N = 2^31 and the largest legal p*r are not computed: memory)")
+    else:
+        ctx.assume("PBKDF2 iteration counts: the grids use {1,2,3,4,5,8,16,100,1000} (+ {255,256,257,4096} on the C fast "
+                   "path); every count 1..256 (1..1024 on the C fast path) only on one input shape; PBKDF1 likewise "
+                   "{1,2,3,4,5,16,100,255,256,257,1000} and every count 1..256 on one shape; scrypt computed outputs: the grid "
+                   "N <= 2^14, r <= 16, p <= 4, plus the listed single large cases (N up to 2^18, r up to 1024, p up to 257); N = 2^31 and the "
+                   "largest legal p*r are not computed: memory")
+        ctx.assume("PBKDF2 / SP 800-108 outputs of 65537 PRF blocks only for the small-output PRFs listed in the grids "
+                   "(the library's block-by-block concatenation is quadratic); 256/257 blocks for every hash/PRF")
+    ctx.assume("bcrypt costs computed: 4..6 (quick) and 4..12 (thorough; 8..12 on one to four passwords each) only "
+               "(pure-Python reference); costs above are covered by the range check only")
     ctx.assume("'refused' means any exception; the exception class is logged as an observation when odd")
     ctx.assume("S2V only over AES (128-bit block); SP 800-108 only with the 32-bit counter/length layout the "
                "library documents")
